@@ -97,7 +97,27 @@ def cholesky(a, lower=False, **k):
             c.stubs.add("scipy.linalg.cholesky (factor pre-image: registered U with U^H U = A)")
             U = wrap(_np.array(U, dtype=object))
             return _conjT(U) if lower else U
-    raise _nps.EncodingGap("scipy.linalg.cholesky without a matching factor pre-image")
+    # deterministic model: Cholesky-Crout elimination; a non-positive pivot raises LinAlgError like LAPACK
+    c.stubs.add("scipy.linalg.cholesky (deterministic model: elimination with SQRT pivots; pivot <= 0 raises LinAlgError)")
+    n = A.shape[0]
+    U = _nps.zeros((n, n))
+    cj = (lambda x: x.conjugate() if isinstance(x, (R, C)) else x)
+    for j in range(n):
+        s = A[j, j]
+        s = s.re if isinstance(s, C) else s
+        for kk in range(j):
+            u = U[kk, j]
+            s = s - ((u.re * u.re + u.im * u.im) if isinstance(u, C) else u * u)
+        if not (s > 0):
+            raise _np.linalg.LinAlgError("%d-th leading minor of the array is not positive definite" % (j + 1))
+        piv = _nps.sqrt(s)
+        U[j, j] = piv
+        for i in range(j + 1, n):
+            t = A[j, i]
+            for kk in range(j):
+                t = t - cj(U[kk, j]) * U[kk, i]
+            U[j, i] = t / piv
+    return _conjT(U) if lower else U
 
 
 def ldl(a, lower=True, hermitian=True, **k):
